@@ -76,6 +76,8 @@ func (r *scriptedReader) Read(p []byte) (int, error) {
 	case 'x':
 		r.done = errScripted
 		return n, errScripted
+	case 'y': // reported once: the next call goes on with the script
+		return n, errScripted
 	}
 	return n, nil
 }
@@ -190,10 +192,14 @@ func readerPlans(c []byte) [][]rdEv {
 	plans = append(plans, bytewise)                         // bytewise with zero-length reads
 	plans = append(plans, []rdEv{{'x', cp(c)}})             // all bytes, error on the same read
 	plans = append(plans, []rdEv{{'d', cp(c)}, {'X', nil}}) // all bytes, then error
+	plans = append(plans, []rdEv{{'y', cp(c)}})             // all bytes, an error reported once on the same read, then EOF
+	plans = append(plans, []rdEv{{'y', cp(c)}, {'E', nil}})
 	if len(c) >= 2 {
 		k := len(c) / 2
 		plans = append(plans, []rdEv{{'d', cp(c[:k])}, {'X', nil}})       // error at offset k
 		plans = append(plans, []rdEv{{'d', cp(c[:k])}, {'e', cp(c[k:])}}) // two chunks
+		plans = append(plans, []rdEv{{'d', cp(c[:k])}, {'y', cp(c[k:])}}) // a one-off error with the last bytes
+		plans = append(plans, []rdEv{{'y', cp(c[:k])}, {'e', cp(c[k:])}}) // a one-off error in the middle
 		plans = append(plans, []rdEv{{'d', nil}, {'d', cp(c[:k])}, {'d', nil}, {'d', cp(c[k:])}, {'d', nil}})
 	}
 	return plans
